@@ -42,6 +42,8 @@ extern struct evm_host evm_host;
 /* reset the model (fresh loop, time NOW) */
 extern void evm_reset(double now);
 extern double evm_now(void);
+/* advance the loop time early (host applies external events at W) */
+extern void evm_set_now(double now);
 extern unsigned long evm_iter(void);
 /* number of active watchers of a kind: 'i' 't' 'p' 's' 'c' */
 extern int evm_nactive(int kind);
